@@ -443,6 +443,10 @@ def check_programs(h: Harness):
         (gram.Spec([C("Shape", True, None), C("Curved", True, 0, weight=0), C("Circle", False, 1, [], weight=1), C("Square", False, 0, [], weight=2),
                     C("Frame", False, 0, [("inner", ("cls", 0))], weight=1)], 0, [2, 3, 4, 1]), {2}, ("progressive", "stack")),
     ]
+    # a Union field whose members include the switched-off production beside a positive-weight one
+    grammars.append((gram.Spec([C("A0", True, None), C("Silent", False, 0, [("k", r03)], weight=0), C("Lit", False, 0, [("k", r03)], weight=2),
+                                C("Use", False, 0, [("u", ("union", ("cls", 1), ("cls", 2))), ("e", ("cls", 0)), ("v", ("union", ("cls", 2), ("cls", 1)))], weight=3),
+                                C("Neg", False, 0, [("e", ("cls", 0)), ("w", ("union", ("cls", 1), ("cls", 2)))], weight=1)], 0, [1, 2, 3, 4]), {1}, ("progressive",)))
     rng = h.rng
     for spec, off, kinds in grammars:
         b = gram.build(spec)
@@ -515,6 +519,49 @@ def check_redeclaration(h: Harness):
             n.weight = w
             weight(w)(n.cls)
         run_extraction(h, nodes, "D", 2, tag=":weights-declared-again")
+
+
+def check_nested_start(h: Harness):
+    """a grammar rooted at a NESTED abstract type whose productions refer back to the enclosing abstract type: the enclosing
+    type's rule is part of the grammar (it is expanded when programs are built), and like every rule its weights are
+    non-negative, sum to one and keep the declared ratios; extracting again changes nothing"""
+    Expr = type(fresh("Expr"), (ABC,), {})
+    Term = weight(2)(abstract(type(fresh("Term"), (Expr,), {})))
+    Const = weight(6)(dataclasses.make_dataclass(fresh("Const"), [("x", int)], bases=(Expr,)))
+    Neg = dataclasses.make_dataclass(fresh("Neg"), [("inner", Expr)], bases=(Expr,))
+    Var = weight(3)(dataclasses.make_dataclass(fresh("Var"), [("x", int)], bases=(Term,)))
+    Paren = dataclasses.make_dataclass(fresh("Paren"), [("inner", Expr)], bases=(Term,))
+    declared = {Term: 2, Const: 6, Neg: 1, Var: 3, Paren: 1}
+    prev = None
+    for step in range(1, 4):
+        try:
+            g = extract_grammar([Const, Neg, Var, Paren], Term)
+        except Exception as e:  # noqa: BLE001
+            h.fail("extract_grammar", "raises", f"extraction #{step} of a grammar rooted at a nested abstract type: {type(e).__name__}: {e}", ["nested-start", step])
+            return
+        gw = g.get_weights()
+        shown = {k.__name__: round(v, 6) for k, v in gw.items() if k in declared}
+        h.count("nested-start-extractions")
+        h.seen(f"nested-start:{step}", nontrivial=True)
+        for rule, alts in g.alternatives.items():
+            prods = [a for a in alts if a in declared]
+            if len(prods) < 2:
+                continue
+            total = sum(gw[a] for a in alts)
+            if abs(total - 1) > 1e-9 or any(gw[a] < 0 for a in alts):
+                h.fail("extract_grammar", "weights-not-normalised", f"extraction #{step} (start symbol {Term.__name__}, nested under {Expr.__name__}): the weights of rule "
+                       f"{rule.__name__} -> {[a.__name__ for a in alts]} sum to {total}: {shown}", ["nested-start", step])
+                return
+            for a in prods:
+                for b_ in prods:
+                    if abs(gw[a] * declared[b_] - gw[b_] * declared[a]) > 1e-9:
+                        h.fail("extract_grammar", "ratios-not-preserved", f"extraction #{step}: rule {rule.__name__}: {a.__name__}:{b_.__name__} declared "
+                               f"{declared[a]}:{declared[b_]}, extracted {gw[a]}:{gw[b_]} ({shown})", ["nested-start", step])
+                        return
+        if prev is not None and any(abs(prev[k] - shown[k]) > 1e-9 for k in shown):
+            h.fail("extract_grammar", "re-extraction-changes-weights", f"extraction #{step} changed the weights: {prev} -> {shown}", ["nested-start", step])
+            return
+        prev = shown
 
 
 def check_multiple_inheritance(h: Harness):
@@ -606,6 +653,7 @@ def run(h: Harness):
     check_programs(h)
     check_redeclaration(h)
     check_multiple_inheritance(h)
+    check_nested_start(h)
     # -- corpus
     full(corpus_flat([0, 1]), "D", 3)
     full(corpus_flat([0, None]), "D", 2)
